@@ -1371,7 +1371,7 @@ class Interp:
             if name == "__class__":
                 return self.builtins["type"]
             if name == "__bases__":
-                return tuple(obj.bases)
+                return tuple(obj.bases) or (self.builtins["object"],)
             c, v = obj.lookup(name)
             if c is not None:
                 if isinstance(v, (StaticV,)):
@@ -1396,6 +1396,8 @@ class Interp:
             sub = obj.name + "." + name
             if sub in self.program.modules:
                 return self.module(sub)
+            if getattr(obj, "ext_fallback", None):
+                return self.ext_child(self.ext_root(obj.ext_fallback), "." + name)
             return MISSING
         if isinstance(obj, Ext):
             r = self.models.ext_attr(self, obj, name, node)
